@@ -67,6 +67,8 @@ func c05Repr(c *Ctx, r *Report) {
 // resultTypes collects the dynamic types that can be returned as result #idx of fn.
 func resultTypes(c *Ctx, fn *ssa.Function, idx int, out map[string]token.Pos, seen map[ssa.Value]bool) {
 	errPhi := map[*ssa.BasicBlock]*ssa.Phi{}
+	edgeTo := map[ssa.Value]*ssa.BasicBlock{}
+	var curErr ssa.Value // the error returned by the return whose value is being walked
 	var walk func(v ssa.Value, at *ssa.BasicBlock, depth int)
 	walk = func(v ssa.Value, at *ssa.BasicBlock, depth int) {
 		if v == nil || depth > 10 {
@@ -90,8 +92,27 @@ func resultTypes(c *Ctx, fn *ssa.Function, idx int, out map[string]token.Pos, se
 			for i, e := range t.Edges {
 				// a value that comes back together with a non-nil error is dropped by the caller (C05.NILERR):
 				// skip the edges on which the error result of the same return is known to be non-nil
-				if ep := errPhi[t.Block()]; ep != nil && i < len(ep.Edges) && edgeErrNonNil(c, ep.Edges[i], t.Block().Preds[i]) {
+				if ep := errPhi[t.Block()]; ep != nil && i < len(ep.Edges) && edgeErrNonNil(c, ep.Edges[i], t.Block().Preds[i], t.Block()) {
 					continue
+				}
+				// facts on the edge itself: the value is nil there, or the error returned with it is not
+				skip := false
+				for _, g := range edgeGuards(t.Block().Preds[i], t.Block()) {
+					g = normGuard(g)
+					if guardSaysNil(g, e) {
+						out["nil"] = token.NoPos
+						skip = true
+					}
+					if curErr != nil && guardSaysNonNil(g, curErr) {
+						skip = true
+					}
+				}
+				if skip {
+					continue
+				}
+				if _, isP := e.(*ssa.Parameter); isP {
+					edgeTo[e] = t.Block()
+					delete(seen, e) // the parameter is judged per edge
 				}
 				walk(e, t.Block().Preds[i], depth+1)
 			}
@@ -108,6 +129,15 @@ func resultTypes(c *Ctx, fn *ssa.Function, idx int, out map[string]token.Pos, se
 			if at != nil && hasGuard(at, func(g guard) bool { return guardSaysNil(g, t) }) {
 				out["nil"] = token.NoPos
 				return
+			}
+			// the value arrives on the branch edge of `if v != nil`: the edge itself says nil
+			if at != nil && edgeTo[v] != nil {
+				for _, g := range edgeGuards(at, edgeTo[v]) {
+					if guardSaysNil(g, t) {
+						out["nil"] = token.NoPos
+						return
+					}
+				}
 			}
 			ts := caseTypes(at, t)
 			if len(ts) == 0 {
@@ -152,9 +182,13 @@ func resultTypes(c *Ctx, fn *ssa.Function, idx int, out map[string]token.Pos, se
 	}
 	for _, rt := range returnsOf(fn) {
 		if idx < len(rt.Results) {
+			curErr = nil
 			if len(rt.Results) == 2 {
 				if ep, ok := rt.Results[1].(*ssa.Phi); ok {
 					errPhi[ep.Block()] = ep
+				}
+				if isErrorType(rt.Results[1].Type()) {
+					curErr = rt.Results[1]
 				}
 			}
 			walk(rt.Results[idx], rt.Block(), 0)
@@ -164,12 +198,19 @@ func resultTypes(c *Ctx, fn *ssa.Function, idx int, out map[string]token.Pos, se
 
 // edgeErrNonNil: the error value carried on this edge is known not to be nil: a tested value on its non-nil
 // branch, or the result of a constructor that never returns nil.
-func edgeErrNonNil(c *Ctx, e ssa.Value, pred *ssa.BasicBlock) bool {
+func edgeErrNonNil(c *Ctx, e ssa.Value, pred, succ *ssa.BasicBlock) bool {
 	if isNilConst(e) {
 		return false
 	}
 	if hasGuard(pred, func(g guard) bool { return guardSaysNonNil(g, e) }) {
 		return true
+	}
+	if succ != nil {
+		for _, g := range edgeGuards(pred, succ) {
+			if guardSaysNonNil(normGuard(g), e) {
+				return true
+			}
+		}
 	}
 	if call, ok := e.(*ssa.Call); ok {
 		if f := calleeObj(call); f != nil && f.Pkg() != nil {
@@ -181,7 +222,7 @@ func edgeErrNonNil(c *Ctx, e ssa.Value, pred *ssa.BasicBlock) bool {
 			all := true
 			for _, rt := range returnsOf(cal) {
 				for _, res := range rt.Results {
-					if isErrorType(res.Type()) && !edgeErrNonNil(c, res, rt.Block()) {
+					if isErrorType(res.Type()) && !edgeErrNonNil(c, res, rt.Block(), nil) {
 						all = false
 					}
 				}
